@@ -346,7 +346,7 @@ pub fn run_c17(ctx: &Ctx) -> i32 {
         "bounded progress: a waiting connection not answered within 10 s although the permits show a free slot is inconclusive, not a violation".into(),
     ];
     let shared = Mutex::new(ev0);
-    let n = ctx.n(48, 1500);
+    let n = ctx.n(48, 200);
     let next = AtomicU64::new(0);
     let deadline = if ctx.budget_s > 0 { Some(Instant::now() + Duration::from_secs(ctx.budget_s)) } else { None };
     std::thread::scope(|s| {
